@@ -331,7 +331,97 @@ func c03Speculation(c *Ctx, root *packages.Package) {
 		}
 	}
 	r.Analysed["front_end_choices"] = nChoice
+	c03CodeStrings(c, root, l)
 	r.Ok("C03-h", "A.pigeon.go:speculation-scan", "", "pigeon.go", fmt.Sprintf("%d predicates and %d ordered choices of the front-end grammar examined for error-returning actions (%d rules have one)", nPred, nChoice, nErr))
 	r.Min("C03-h choices of the front-end grammar", 20, nChoice)
 	r.Min("C03-h predicates of the front-end grammar", 10, nPred)
+}
+
+// c03CodeStrings (C03-i): code blocks may contain Go strings, and a brace inside a string is not a brace of the block.
+// Rule CodeStringLiteral skips such strings as units; if it fails on a string the characters of the string are read
+// one by one by the fallback of rule Code, and a brace inside it is counted. For an interpreted string ("…") and a rune
+// literal ('…') that means: the repetition between the quotes must be able to pass over a backslash followed by any
+// character. Structurally, in the alternative that starts with the quote literal, the repeated choice has either a
+// negated class that does not exclude the backslash (the backslash and the character after it are then ordinary
+// characters; the two-character alternatives for \" and \\ only keep an escaped quote from ending the string), or an
+// alternative that takes a backslash together with any following character.
+func c03CodeStrings(c *Ctx, root *packages.Package, l *layoutCtx) {
+	r := c.R
+	e := unwrapLit(l.exprs["CodeStringLiteral"])
+	if e == nil {
+		return // the grammar has no such rule: nothing claimed
+	}
+	alts := []*ast.CompositeLit{e}
+	if l.kind(e) == "choiceExpr" {
+		alts = l.list(e, "alternatives")
+	}
+	n := 0
+	var bad []string
+	for _, alt := range alts {
+		if l.kind(alt) != "seqExpr" {
+			continue
+		}
+		items := l.list(alt, "exprs")
+		if len(items) < 3 || l.kind(items[0]) != "litMatcher" {
+			continue
+		}
+		q, _ := litField(root, items[0], "val")
+		if q != `"` && q != "'" {
+			continue // raw strings have no escapes
+		}
+		n++
+		passes := false
+		var visit func(cl *ast.CompositeLit)
+		visit = func(cl *ast.CompositeLit) {
+			if cl == nil {
+				return
+			}
+			switch l.kind(cl) {
+			case "charClassMatcher":
+				inv := nospace(l.field(cl, "inverted")) == "true"
+				excludesBackslash := false
+				if ch, ok := l.field(cl, "chars").(*ast.CompositeLit); ok {
+					for _, el := range ch.Elts {
+						if s := nospace(el); s == `'\\'` {
+							excludesBackslash = true
+						}
+					}
+				}
+				if inv && !excludesBackslash {
+					passes = true
+				}
+			case "seqExpr":
+				its := l.list(cl, "exprs")
+				if len(its) == 2 && l.kind(its[0]) == "litMatcher" {
+					if v, _ := litField(root, its[0], "val"); v == `\` {
+						if k := l.kind(its[1]); k == "anyMatcher" || k == "charClassMatcher" && nospace(l.field(its[1], "inverted")) == "true" {
+							passes = true
+						}
+					}
+				}
+				for _, it := range its {
+					if k := l.kind(it); k != "litMatcher" {
+						_ = k
+					}
+				}
+			case "choiceExpr":
+				for _, a := range l.list(cl, "alternatives") {
+					visit(a)
+				}
+			default:
+				visit(l.child(cl))
+			}
+		}
+		for _, it := range items[1 : len(items)-1] {
+			visit(it)
+		}
+		if !passes {
+			bad = append(bad, fmt.Sprintf("the %s…%s alternative of CodeStringLiteral (`%s`) cannot pass over a backslash followed by an arbitrary character: its negated class excludes the backslash and no alternative takes a backslash with the character after it", q, q, abbreviate(l.describe(alt))))
+		}
+	}
+	if n == 0 {
+		return
+	}
+	r.Check(len(bad) == 0, "C03-i", "A.pigeon.go:CodeStringLiteral:every-escape-is-passed-over", "", "pigeon.go", fmt.Sprintf("%d quoted forms, each passing over a backslash with whatever follows it", n),
+		strings.Join(bad, "; ")+": a Go string with such an escape (\"}\\n\") is not skipped as a unit, its characters are read one by one by rule Code, and a brace inside it ends or extends the code block - the grammar is rejected or the rules that follow are swallowed")
 }
